@@ -15,6 +15,55 @@ def driver(scenarios, tag):
     return vf.run_driver(PID, PKG, TEST, scenarios, tag)
 
 
+# ---- the WIRED family (spec/AttesterChain.tla): real validators manager, real wallet / dirk account manager, real
+# attester, signer and submitter on one instance per history; the fakes are the beacon node and the wallet store
+W_PKG = "./services/accountmanager/dirk"      # (the dirk manager can only be given wallets from inside its package)
+W_TEST = "TestVerifC04Wired"
+W_TRACE = ("Trace_AttesterChain", "Trace_AttesterChain.cfg")
+
+
+def wired_driver(scenarios, tag):
+    return vf.run_driver(PID, W_PKG, W_TEST, scenarios, "wired-" + tag)
+
+
+def wired_sig(s):
+    st = s["steps"]
+    return {"kind": "wired", "mgr": st[0].get("mgr", ""), "history": True,
+            "refreshes": sum(1 for x in st if x["ev"] == "Refresh")}
+
+
+def wired_nontrivial(s, rows):
+    """In the RECORDED trace: attestations reached the node after a refresh (not the start-up one) whose answer was not
+    complete - partial, empty or an error - for the accounts then held, i.e. the validator records behind the
+    attestation have a history."""
+    seen_refresh, incomplete = 0, False
+    for r in rows:
+        if r["ev"] == "Refresh":
+            seen_refresh += 1
+            if seen_refresh > 1 and (r["err"] or not set(r["held"]) <= set(r["knows"])):
+                incomplete = True
+        elif r["ev"] == "Attest" and r["atts"] and incomplete:
+            return True
+    return False
+
+
+def wired_scenarios(tier):
+    num = 320 if tier == "quick" else 4000
+    hs = vf.tlc_scenarios(PID, "Scen_AttesterChain", "Scen_AttesterChain.cfg", num=num, depth=40, name="scen-wired",
+                          timeout=300 if tier == "quick" else 900)
+    return [{"sc": 300001 + i, "kind": "wired", "steps": h} for i, h in enumerate(hs[:num])]
+
+
+def wired_conformance(v, sc):
+    # (its replay directories are numbered from 101: the other families number theirs from 1)
+    orig = vf.save_replay
+    vf.save_replay = lambda pid, n, *a: orig(pid, n + 100, *a)
+    try:
+        vf.conformance(v, sc, wired_driver, W_TRACE[0], W_TRACE[1], wired_sig, wired_nontrivial, chunk=2000)
+    finally:
+        vf.save_replay = orig
+
+
 def _shape(steps):
     """(validators of the duty under test, already attested, without account, unsigned) of the last run."""
     runs = [st["run"] for st in steps if st["ev"] == "Deliver"]
@@ -131,7 +180,7 @@ def history_scenarios(tier, first_id):
     return out
 
 
-def scenarios(tier):
+def scenarios(tier, meanwhile=None):
     rnd = random.Random(vf.seed())
     # the three generators side by side (each a TLC process of its own)
     got = {}
@@ -153,8 +202,12 @@ def scenarios(tier):
     ths = [threading.Thread(target=gen, args=j) for j in jobs]
     for t in ths:
         t.start()
-    for t in ths:
-        t.join()
+    try:
+        if meanwhile is not None:
+            meanwhile()      # the wired family runs on the real code while the generators of the other families work
+    finally:
+        for t in ths:
+            t.join()
     for k in got:
         if isinstance(got[k], BaseException):
             raise got[k]
@@ -169,20 +222,20 @@ def scenarios(tier):
     return out + got["hist"]
 
 
-def _expect_violation(cfg, inv, timeout=600):
+def _expect_violation(cfg, inv, timeout=600, module="AttesterScratch"):
     """A control design (spec/AttesterScratch.tla) that the invariants must reject: otherwise the model cannot see
     the class (broken run, never a verdict)."""
-    r = vf.tlc(PID, "mc-" + cfg.replace(".cfg", ""), "AttesterScratch", cfg, workers=4, timeout=timeout, heap="6g")
+    r = vf.tlc(PID, "mc-" + cfg.replace(".cfg", ""), module, cfg, workers=4, timeout=timeout, heap="6g")
     if r["timed_out"] or r["kind"] != "invariant" or r["violated"] != inv:
         raise vf.Broken("%s should violate %s (vacuous model?): %s %s\n%s" % (cfg, inv, r["kind"], r["violated"], r["out"][-1500:]))
-    vf.log("TLC AttesterScratch/%s: %s violated as it must be (%d distinct states, %.1fs)" % (cfg, inv, r["distinct"], r["wall_s"]))
+    vf.log("TLC %s/%s: %s violated as it must be (%d distinct states, %.1fs)" % (module, cfg, inv, r["distinct"], r["wall_s"]))
     return r
 
 
 def model(tier, out):
     """Exhaustive runs (in threads beside the driver); results / exception into out."""
     ex = lambda mod, cfg, **kw: (lambda: vf.tlc_exhaustive(PID, mod, cfg, workers=6 if "timeout" in kw else 4, **kw))
-    bad = lambda cfg, inv: (lambda: _expect_violation(cfg, inv) and None)
+    bad = lambda cfg, inv, module="AttesterScratch": (lambda: _expect_violation(cfg, inv, module=module) and None)
     lanes = [
         [ex("MC_Attester", "MC_Attester_C04.cfg"),
          # two runs OVERLAPPING on one instance, duties whose positions and sizes differ from slot to slot
@@ -196,12 +249,21 @@ def model(tier, out):
          # ... while they pass every sequential history (why call-after-call checks cannot see them) ...
          ex("AttesterScratch", "MC_AttesterScratch_seq.cfg")],
         # ... and copied out under the lock they are a legal implementation
-        [ex("AttesterScratch", "MC_AttesterScratch_copy.cfg")],
+        [ex("AttesterScratch", "MC_AttesterScratch_copy.cfg"),
+         # the chain behind the attester (AttesterChain.tla): validator records with refresh histories (complete,
+         # partial, empty answers, errors), wallet and dirk account managers, the controller's indices, the slot's job;
+         # the attestation judged at the node (signature under the key of the validator it is attributed to) ...
+         ex("AttesterChain", "MC_AttesterChain.cfg"),
+         # ... and the deviations of that class must be rejected AT THE NODE: an omitted validator carried into two of
+         # the validators manager's three maps; the index map filled with the place in the answer
+         bad("MC_AttesterChain_carry2of3.cfg", "SignedByAssignee", "AttesterChain"),
+         bad("MC_AttesterChain_rank.cfg", "SignedByAssignee", "AttesterChain")],
     ]
     if tier == "thorough":
         lanes[0] += [ex("MC_Attester", "MC_Attester_C04big.cfg", timeout=1200), ex("MC_Attester", "MC_Attester_C04ovlhuge.cfg", timeout=1500)]
         lanes[1] += [ex("MC_Attester", "MC_Attester_C04ovlbig.cfg", timeout=1200)]
-        lanes[2] += [ex("AttesterScratch", "MC_AttesterScratch_copy_big.cfg", timeout=1200)]
+        lanes[2] += [ex("AttesterScratch", "MC_AttesterScratch_copy_big.cfg", timeout=1200),
+                     ex("AttesterChain", "MC_AttesterChain_big.cfg", timeout=1500)]
     res, errs = [], []
 
     def lane(jobs):
@@ -231,12 +293,15 @@ def run(tier):
         "signature per account",
         "the fake signer's signature encodes (validator of the account, committee index, slot, source, target, roots)",
         "Env_Window (C01's assumption) for the histories: runs of one instance are for the current and the next epoch",
+        "wired family: the beacon node's duty oracle gives every validator of the chain one slot per epoch with a "
+        "(committee, position) that names it; a slot's job runs once; Vouch starts only when the start-up refresh succeeds; "
+        "every validator the node reports is active",
     ]
     out = {}
     th = threading.Thread(target=model, args=(tier, out))
     th.start()
     try:
-        sc = scenarios(tier)
+        sc = scenarios(tier, meanwhile=lambda: wired_conformance(v, wired_scenarios(tier)))
         vf.conformance(v, sc, driver, TRACE[0], TRACE[1], sig_of, nontrivial, dfs=True, chunk=700)
     finally:
         th.join()
@@ -255,7 +320,14 @@ def run(tier):
                           "the accounts lookup while run 2 goes from start to end, later runs one after the other, or all runs "
                           "interleaved freely; non-trivial = in the recorded trace a run's per-validator values were exposed to "
                           "another run's work (between its accounts and its submission) or to an earlier run's (shared validator "
-                          "or committee index with other values)")
+                          "or committee index with other values).  Wired family: TLC-simulated histories of AttesterChain.tla on "
+                          "ONE wired instance (real validators manager, real wallet or dirk account manager, real attester, "
+                          "signer, immediate submitter; fake beacon node and wallet store): start-up refresh, refreshes whose "
+                          "answer is complete / partial / empty / an error while the store offers all or all but one of the "
+                          "accounts, the controller's validating indices per epoch, the slots' jobs; every attestation the node "
+                          "received is judged by BLS verification under the key of the validator the duty oracle puts at "
+                          "(slot, committee index, set bit); non-trivial = attestations reached the node after a refresh that "
+                          "was not complete for the accounts held")
     return v.finish()
 
 
@@ -263,5 +335,8 @@ def replay(path):
     v = vf.Verdict(PID, "quick")
     with open(os.path.join(path, "scenario.json")) as fh:
         s = json.load(fh)
+    if s.get("kind") == "wired":
+        vf.conformance(v, [s], wired_driver, W_TRACE[0], W_TRACE[1], wired_sig, wired_nontrivial)
+        return 1 if v.violations else 0
     vf.conformance(v, [s], driver, TRACE[0], TRACE[1], sig_of, nontrivial, dfs=True)
     return 1 if v.violations else 0
